@@ -3,6 +3,7 @@ package c04
 
 import (
 	"verif/internal/pipe"
+	"verif/internal/rig"
 	"verif/internal/vp"
 )
 
@@ -37,6 +38,27 @@ func gen(seed int64, tier string, idx int) *pipe.Scenario {
 		g.FanoutUnabsorbed(sc)
 		return sc
 	}
+	if idx%16 == 13 {
+		// a record whose dead-lettering fails while the records behind it are
+		// already in flight: none of them may be acknowledged past it
+		sc.Topo.Sources = sc.Topo.Sources[:1]
+		sc.Records = sc.Records[:1]
+		if sc.Records[0] < 20 {
+			sc.Records[0] = 20
+		}
+		sc.Topo.Sources[0].Procs = nil
+		sc.Topo.Dests[0].Procs = nil
+		sc.Cond = nil
+		// ... including records a processor filters out, which are acknowledged by
+		// the processor node itself, not by the destination's acker
+		pf := rig.ProcSpec{ID: "pf"}
+		pf.Script.Seed = g.R.Uint64()
+		pf.Script.FilterPm = 400
+		sc.Topo.PipeProcs = []rig.ProcSpec{pf}
+		g.PartialDLQFailure(sc)
+		sc.Topo.Dests[0].Dst.LatencyUs = []int{[]int{0, 2000, 6000}[g.R.Intn(3)]}
+		return sc
+	}
 	switch g.R.Intn(5) {
 	case 0:
 		sc.Steps = append(sc.Steps, pipe.Step{AtEvent: 20 + g.R.Intn(300), Op: "stopwait"})
@@ -52,6 +74,16 @@ func judge(out *pipe.Outcome, ix *pipe.Index) pipe.Verdict {
 	var v pipe.Verdict
 	vs, j := pipe.OracleC04(ix)
 	v.Violations = vs
+	// the stored position is the durable form of the ack sequence: it must not skip
+	// a record that was neither delivered, dead-lettered nor filtered
+	vs02, _ := pipe.OracleC02(ix)
+	for _, x := range vs02 {
+		if x.Class == "commit-past-unhandled" {
+			x.Property = "C04"
+			x.Identity = "C04/stored-position-skips-record/" + out.Sc.Engine
+			v.Violations = append(v.Violations, x)
+		}
+	}
 	v.AddJudged("acks_in_order_", j)
 	v.Nontrivial = j.Obligations >= 5
 	v.SigExtra = pipe.CompletionOrderClass(out.Evs)
